@@ -286,6 +286,8 @@ class Executor(object):
             return SV('pair', (hp.fresh(name + '0', H), hp.fresh(name + '1', H)))
         if ty == 'item':
             return SV('item', (hp.fresh(name + 'k', H), hp.fresh(name + 'r', I)))
+        if ty == 'bnodeopt':
+            return SV('bnodeopt', hp.fresh(name, I))
         if ty == 'coll:pair':
             return SV('coll', None, Coll('pair', hp.fresh(name, hp.Rel), True))
         if ty == 'coll:H':
@@ -340,6 +342,9 @@ class Executor(object):
             return Coll('seq', None, True, length=sv.x[0], elem=sv.x[1])
         if sv.ty == 'values':
             return Coll('value', h.ddom(sv.t), True, src=('dd', sv.t), pair_second=sv.t)
+        if sv.ty == 'wset':
+            comp, ref = sv.x
+            return Coll('ref', h[comp][ref], True, src=(comp, ref), elem_ty='bnode')
         if sv.ty == 'reflist':
             return Coll('ref', h['refsets'][sv.t], False, src=('refsets', sv.t), elem_ty=sv.x)
         raise Unsupported('cannot %s a value of type %s' % (what, sv.ty))
@@ -476,6 +481,8 @@ class Executor(object):
         if b.ty == 'none':
             if a.ty == 'none':
                 return z3.BoolVal(True)
+            if a.ty == 'bnodeopt':
+                return a.t == -1
             if a.ty == 'opt':
                 return a.x[0]
             if a.ty == 'H':
@@ -595,6 +602,9 @@ class Executor(object):
         r, h = path.heap.new()
         path.heap = h.with_(rels=z3.Store(h['rels'], r, contents))
         return SV('pairlist', r)
+
+    def ev_Lambda(self, e, path):
+        return SV('lambda', None, e)
 
     def ev_IfExp(self, e, path):
         raise Unsupported('conditional expression')
